@@ -155,16 +155,20 @@ structure Candidate where
   info : Nat
   deriving Repr, DecidableEq
 
+/-- the `match &newest_ent` of the loop body: a candidate replaces the current one unless its
+version is `<=` the current one's (so the earlier of two equal versions is kept) -/
+def pick (cur : Option Candidate) (c : Candidate) : Option Candidate :=
+  match cur with
+  | some b => if c.version.le b.version then cur else some c
+  | none => some c
+
 /-- one iteration of the `for ent in entries` loop -/
 def scanEntry (o : Ops σ) (ent : Nat) (cur : Option Candidate) : M σ (Option Candidate) := do
   let info ← readReg o ent ENTRY_FILE_FORMAT_INFO 4
   let ft ← M.lift (fileType info)
   if ft = .deviceXml then do
     let v ← readReg o ent ENTRY_FILE_VERSION 4
-    let version := decodeVersion v
-    match cur with
-    | some c => if version.le c.version then pure cur else pure (some ⟨ent, version, info⟩)
-    | none => pure (some ⟨ent, version, info⟩)
+    pure (pick cur ⟨ent, decodeVersion v, info⟩)
   else pure cur
 
 /-- the loop over `(0..entry_num).map(|i| first + i * 64)`: `k` entries left, next index `i` -/
@@ -209,9 +213,8 @@ def decodeFile (o : Ops σ) (comp : Compression) (buf : Bytes) : R Bytes :=
         | [some xml] => .ok (o.lossy xml)
         | _ => .err .invalidDevice             -- `by_index(0)` / `read_to_end` failed
 
-/-- `DeviceControl::genapi` -/
-def genapi (o : Ops σ) : M σ Bytes := do
-  let table ← manifestTable o
+/-- `genapi` after `self.manifest_table()` -/
+def genapiFrom (o : Ops σ) (table : Nat) : M σ Bytes := do
   let (n, first) ← entries o table
   let newest ← scan o first n 0 none
   match newest with
@@ -223,5 +226,10 @@ def genapi (o : Ops σ) : M σ Bytes := do
     let buf ← readFile o addr size
     verifyXml o buf c.entry
     M.lift (decodeFile o comp buf)
+
+/-- `DeviceControl::genapi` -/
+def genapi (o : Ops σ) : M σ Bytes := do
+  let table ← manifestTable o
+  genapiFrom o table
 
 end CamVerif.GenApiFetch
